@@ -266,3 +266,28 @@ Proof.
     rewrite span_path32_subpath. cbn [spanR] in *.
     apply catmull_span_hausdorff_ieee_edges; assumption.
 Qed.
+
+(* ---------- the hypotheses are satisfiable ---------- *)
+
+Lemma coord_ok_ofZ E n : (0 <= E <= 23)%Z -> (Z.abs n <= 2 ^ E)%Z -> coord_ok E (S.of_Z n).
+Proof.
+  intros HE Hn.
+  assert (2 ^ E <= 2 ^ 23)%Z by (apply Z.pow_le_mono_r; lia).
+  destruct (S_ofZ' n ltac:(lia)) as [F Rn]. split; [exact F|].
+  rewrite Rn, <- abs_IZR. change 2%Z with (radix_val radix2) in Hn.
+  rewrite <- IZR_Zpower by lia. apply IZR_le. exact Hn.
+Qed.
+
+Definition ex_cat : list Pos :=
+  [mkPos (S.of_Z 0) (S.of_Z 0); mkPos (S.of_Z 100) (S.of_Z 50); mkPos (S.of_Z 200) (S.of_Z 0)].
+
+Lemma ex_cat_ok : Forall (point_ok 8) ex_cat.
+Proof.
+  unfold ex_cat. repeat (apply Forall_cons; [split; cbn [px py]; apply coord_ok_ofZ; lia|]). apply Forall_nil.
+Qed.
+
+Lemma ex_cat_runs : exists cat, approximate_catmull ex_cat = Done cat.
+Proof. eexists. reflexivity. Qed.
+
+Lemma ex_cat_dump : map dump_pos ex_cat = [[0; 0]; [1120403456; 1112014848]; [1128792064; 0]]%Z.
+Proof. vm_compute. reflexivity. Qed.
